@@ -49,6 +49,8 @@ impl<T> AtomicWeak<T> {
     /// Panics if `order` is `Release` or `AcqRel`.
     #[inline]
     pub fn load<'g>(&self, order: Ordering, guard: &'g Guard) -> WeakSnapshot<'g, T> {
+        #[cfg(feature = "circ_verif")]
+        crate::verif::yp(crate::verif::site::AW_LOAD);
         WeakSnapshot::from_raw(self.link.load(order), guard)
     }
 
@@ -60,7 +62,11 @@ impl<T> AtomicWeak<T> {
     pub fn store(&self, ptr: Weak<T>, order: Ordering, guard: &Guard) {
         let new_ptr = ptr.ptr;
         forget(ptr);
+        #[cfg(feature = "circ_verif")]
+        crate::verif::yp(crate::verif::site::AW_STORE_SWAP);
         let old_ptr = self.link.swap(new_ptr, order);
+        #[cfg(feature = "circ_verif")]
+        crate::verif::yp(crate::verif::site::AW_STORE_DEC);
         unsafe {
             if let Some(cnt) = old_ptr.as_raw().as_mut() {
                 RcInner::decrement_weak(cnt, Some(guard));
@@ -75,6 +81,8 @@ impl<T> AtomicWeak<T> {
     #[inline(always)]
     pub fn swap(&self, new: Weak<T>, order: Ordering) -> Weak<T> {
         let new_ptr = new.into_raw();
+        #[cfg(feature = "circ_verif")]
+        crate::verif::yp(crate::verif::site::AW_SWAP);
         let old_ptr = self.link.swap(new_ptr, order);
         Weak::from_raw(old_ptr)
     }
@@ -105,6 +113,8 @@ impl<T> AtomicWeak<T> {
         failure: Ordering,
         guard: &'g Guard,
     ) -> Result<Weak<T>, CompareExchangeError<Weak<T>, WeakSnapshot<'g, T>>> {
+        #[cfg(feature = "circ_verif")]
+        crate::verif::yp(crate::verif::site::AW_CAS);
         match self
             .link
             .compare_exchange(expected.ptr, desired.ptr, success, failure)
@@ -150,6 +160,8 @@ impl<T> AtomicWeak<T> {
         failure: Ordering,
         guard: &'g Guard,
     ) -> Result<Weak<T>, CompareExchangeError<Weak<T>, WeakSnapshot<'g, T>>> {
+        #[cfg(feature = "circ_verif")]
+        crate::verif::yp(crate::verif::site::AW_CAS);
         match self
             .link
             .compare_exchange_weak(expected.ptr, desired.ptr, success, failure)
@@ -202,6 +214,8 @@ impl<T> AtomicWeak<T> {
     ) -> Result<WeakSnapshot<'g, T>, CompareExchangeError<WeakSnapshot<'g, T>, WeakSnapshot<'g, T>>>
     {
         let desired_raw = expected.ptr.with_tag(desired_tag);
+        #[cfg(feature = "circ_verif")]
+        crate::verif::yp(crate::verif::site::AW_CAS_TAG);
         match self
             .link
             .compare_exchange(expected.ptr, desired_raw, success, failure)
@@ -541,5 +555,55 @@ impl<'g, T> Debug for WeakSnapshot<'g, T> {
 impl<'g, T> Pointer for WeakSnapshot<'g, T> {
     fn fmt(&self, f: &mut Formatter<'_>) -> std::fmt::Result {
         Pointer::fmt(&self.ptr, f)
+    }
+}
+
+#[cfg(feature = "circ_verif")]
+#[allow(missing_docs)]
+impl<T> Weak<T> {
+    pub fn verif_addr(&self) -> usize {
+        self.ptr.as_raw() as usize
+    }
+    pub fn verif_high_tag(&self) -> usize {
+        self.ptr.high_tag()
+    }
+    pub fn verif_counts(&self) -> Option<crate::verif::Counts> {
+        if self.ptr.is_null() {
+            None
+        } else {
+            Some(unsafe { crate::verif::counts_at::<T>(self.verif_addr()) })
+        }
+    }
+}
+
+#[cfg(feature = "circ_verif")]
+#[allow(missing_docs)]
+impl<'g, T> WeakSnapshot<'g, T> {
+    pub fn verif_addr(&self) -> usize {
+        self.ptr.as_raw() as usize
+    }
+    pub fn verif_high_tag(&self) -> usize {
+        self.ptr.high_tag()
+    }
+    pub fn verif_with_high_tag(self, tag: usize) -> Self {
+        let mut result = self;
+        result.ptr = result.ptr.with_high_tag(tag);
+        result
+    }
+    pub fn verif_counts(&self) -> Option<crate::verif::Counts> {
+        if self.ptr.is_null() {
+            None
+        } else {
+            Some(unsafe { crate::verif::counts_at::<T>(self.verif_addr()) })
+        }
+    }
+}
+
+#[cfg(feature = "circ_verif")]
+#[allow(missing_docs)]
+impl<T> AtomicWeak<T> {
+    pub fn verif_peek(&self) -> (usize, usize, usize) {
+        let w = self.link.load(Ordering::SeqCst);
+        (w.as_raw() as usize, w.tag(), w.high_tag())
     }
 }
